@@ -21,6 +21,7 @@ RULE = (
     "the argument is a scalar carrier / complex / non-default dtype; distinct by (template, features, argsel, carriers, "
     "complex mask, dtype). empty:<template>: the same check with a zero-length side in the drawn shapes (zero-size arrays are ordinary "
     "NumPy values; the result must still be a member of the argument's space)."
+    " space:whole_container: list / tuple arguments handed whole to NumPy functions (and as an unpassed default under multigrad_dict): the argument's structure, or a raise."
 )
 
 LOWPREC = ["float32", "float16", "longdouble", "complex64"]
